@@ -136,6 +136,11 @@ func expectedDOM(doc []byte, nonce string) *html.Node {
 		return nil
 	}
 	b := firstBody(n)
+	if b == nil {
+		// a document without a body element (a frameset document): there is nowhere to append the script, the
+		// browser must get the same document, correctly framed and encoded
+		return n
+	}
 	s := &html.Node{Type: html.ElementNode, Data: "script", Attr: []html.Attribute{{Key: "src", Val: "/_templ/reload/script.js"}}}
 	if nonce != "" {
 		s.Attr = append(s.Attr, html.Attribute{Key: "nonce", Val: nonce})
@@ -285,7 +290,7 @@ func (w *worker) check(cfg config, docName string, doc []byte) {
 	want := expectedDOM(doc, cfg.wantNonce)
 	if pr := domEqual(want, gotDOM, ""); pr != "" {
 		key := "dom-differs"
-		if strings.Count(string(dec), "/_templ/reload/script.js") != 1 {
+		if strings.Count(string(dec), "/_templ/reload/script.js") != 1 && firstBody(want) != nil {
 			key = "script-count"
 		}
 		viol(key, "decoded document is not the original plus one reload script at the end of body: "+pr)
@@ -315,6 +320,10 @@ func documents(depth int) []doc {
 		"<style>body > p { color: red }</style>",
 		"<noscript><p>ns</p></noscript>",
 		"<a href=\"/x?a=1&amp;b=2\">l</a>",
+		// characters whose lower- and upper-case forms have another UTF-8 length (İ 2→1, K and Å 3→1/2, ẞ 3→2, Ⱥ Ⱦ 2→3, ſ ı),
+		// and bytes that are not UTF-8 at all: byte offsets taken in a case-folded copy do not fit the original
+		"<p>İstanbul K Å ẞ ȺȾ ſı</p>",
+		"<p>bad \xff\xfe bytes \xc3</p>",
 	}
 	var bodies []string
 	vlib.Seqs(frags, depth, func(s string, idx []int) bool { bodies = append(bodies, s); return true })
@@ -329,6 +338,14 @@ func documents(depth int) []doc {
 		{"head-script", "<!DOCTYPE html><html><head><script src=\"/a.js\"></script></head><body>", "</body></html>"},
 	}
 	var out []doc
+	// documents without a body element
+	for i, fs := range []string{
+		"<!DOCTYPE html><html><head><title>t</title></head><frameset cols=\"50%,50%\"><frame src=\"a.html\"><frame src=\"b.html\"></frameset></html>",
+		"<html><frameset rows=\"*\"><frame src=\"İ.html\"><noframes>no frames</noframes></frameset></html>",
+		"<frameset><frame src=\"a.html\"></frameset>",
+	} {
+		out = append(out, doc{fmt.Sprintf("frameset#%d", i), fs})
+	}
 	for _, sh := range shells {
 		for i, b := range bodies {
 			out = append(out, doc{fmt.Sprintf("%s/body#%d", sh.name, i), sh.pre + b + sh.post})
@@ -472,7 +489,8 @@ func main() {
 	}
 	docs := documents(run.Pick(2, 3))
 	// representative documents for the full configuration product
-	rep := []doc{docs[0], docs[3], docs[len(docs)/2], docs[len(docs)-1], {"empty", ""}, {"only-text", "héllo"}}
+	rep := []doc{docs[0], docs[3], docs[len(docs)/2], docs[len(docs)-1], {"empty", ""}, {"only-text", "héllo"},
+		{"case-folding-lengths", "<!DOCTYPE html><html><head><title>İ</title></head><body><h1>İstanbul</h1><p>K Å ẞ ȺȾ \xff.</p></body></html>"}}
 	// sizes
 	filler := func(n int) doc {
 		var b strings.Builder
